@@ -256,6 +256,49 @@ Proof. induction cs as [|a cs IH]; intros k; cbn [csum]; [reflexivity|]. rewrite
 Lemma csum_lin a b f h cs k : a * csum f cs k + b * csum h cs k == csum (fun j => a * f j + b * h j) cs k.
 Proof. rewrite csum_add, !csum_scal. reflexivity. Qed.
 
+(* ---------- the binomial moments without cancelling theta ---------- *)
+Definition ddpw (x : Q) (n : nat) : Q := match n with S (S m) => Qnat (S (S m)) * Qnat (S m) * pw x m | _ => 0 end.
+Lemma dpw_comp x y n : x == y -> dpw x n == dpw y n.
+Proof. intros E. destruct n as [|n]; cbn [dpw]; [reflexivity|]. rewrite (pw_comp x y n E). reflexivity. Qed.
+Section MomentsU.
+Variables (u v theta : Q).
+Hypothesis Huv : u + v == theta.
+Lemma moment1u k n : (k < n)%nat -> sumQ (map (fun i => Qnat i * Tk u v k i) (seq 0 n)) == u * dpw theta k.
+Proof.
+  intros Hk. destruct (coef_sums (ppow [v; u] k) n 0 (tail_vanishes u v k n Hk)) as (_ & E & _).
+  rewrite (ICP.sumQ_map_ext _ (fun i => Qnat (0 + i) * nth i (ppow [v; u] k) 0)) by (intros i _; unfold Tk; rewrite binom_coef; reflexivity).
+  rewrite E, pderiv_from_0, D_ppow_dpw, D_lin. rewrite (dpw_comp (peval [v; u] 1) theta k) by (rewrite peval_lin, <- Huv; ring). ring.
+Qed.
+Lemma moment2u k n : (k < n)%nat ->
+  sumQ (map (fun i => Qnat i * (Qnat i - 1) * Tk u v k i) (seq 0 n)) == u * u * ddpw theta k.
+Proof.
+  intros Hk. destruct (coef_sums (ppow [v; u] k) n 0 (tail_vanishes u v k n Hk)) as (_ & _ & E).
+  rewrite (ICP.sumQ_map_ext _ (fun i => Qnat (0 + i) * (Qnat (0 + i) - 1) * nth i (ppow [v; u] k) 0)) by (intros i _; unfold Tk; rewrite binom_coef; reflexivity).
+  assert (H1 : ~ 1 == 0) by (intro H; discriminate H).
+  rewrite E, pdd_from_0. destruct k as [|[|k]]; cbn [ddpw].
+  - cbn [ppow pderiv pderiv_from peval]. ring.
+  - rewrite (D2_lin_pow1 u v 1 H1). ring.
+  - rewrite (D2_lin_pow u v k 1 H1), (lin_at_1 u v theta Huv). ring.
+Qed.
+End MomentsU.
+Lemma csum_dpw_S theta cs : forall k, csum (fun j => dpw theta j) cs (S k) == pw theta k * peval (pderiv_from cs (S k)) theta.
+Proof.
+  induction cs as [|a cs IH]; intros k; cbn [csum pderiv_from peval dpw]; [ring|]. rewrite IH, pw_S. ring.
+Qed.
+Lemma csum_dpw theta c : csum (fun j => dpw theta j) c 0 == D c theta.
+Proof.
+  destruct c as [|a cs]; cbn [csum pderiv dpw]; [cbn [peval]; ring|]. rewrite csum_dpw_S, pw_0. ring.
+Qed.
+Lemma csum_ddpw_SS theta cs : forall k, csum (fun j => ddpw theta j) cs (S (S k)) == pw theta k * peval (pdd_from cs (S (S k))) theta.
+Proof.
+  induction cs as [|a cs IH]; intros k; cbn [csum pdd_from peval ddpw]; [ring|]. rewrite IH, pw_S. rewrite (AuxP.Qnat_S (S k)). ring.
+Qed.
+Lemma csum_ddpw theta c : csum (fun j => ddpw theta j) c 0 == D2 c theta.
+Proof.
+  destruct c as [|a [|b cs]]; cbn [csum pderiv pderiv_from ddpw]; try (cbn [peval]; ring).
+  rewrite csum_ddpw_SS, pw_0, pdd_from_SS. ring.
+Qed.
+
 (* ====================================================================== *)
 (*  EBCM (theta, R)  ->  compact effective degree                          *)
 (* ====================================================================== *)
@@ -298,8 +341,6 @@ Proof.
   rewrite <- csum_swap, <- ICP.sumQ_map_scal. apply ICP.sumQ_map_ext. intros i _. unfold Sv. rewrite ced_val. ring.
 Qed.
 
-Hypothesis Hth : ~ theta == 0.
-
 Lemma S_moment0 : sumQ (map Sv (seq 0 n)) == N * peval c theta.
 Proof.
   destruct uv_vals as (_ & Huv & _).
@@ -310,23 +351,15 @@ Proof.
 Qed.
 Lemma S_moment1 : sumQ (map (fun i => Qnat i * Sv i) (seq 0 n)) == N * u * a theta.
 Proof.
-  destruct uv_vals as (_ & Huv & _). apply (Qmult_inj_l _ _ theta Hth).
-  rewrite sumS.
-  setoid_replace (theta * (N * csum (fun j => sumQ (map (fun i => Qnat i * Tk u v j i) (seq 0 n))) c 0))
-    with (N * csum (fun j => theta * sumQ (map (fun i => Qnat i * Tk u v j i) (seq 0 n))) c 0) by (rewrite csum_scal; ring).
-  rewrite (csum_ext _ (fun j => u * (Qnat j * pw theta j))).
-  - rewrite csum_scal. destruct (csum_pw theta c 0) as (_ & E & _). rewrite E, pw_0, pderiv_from_0. ring.
-  - intros j Hj. cbn [plus]. rewrite (moment1 u v theta Huv j n Hj). ring.
+  destruct uv_vals as (_ & Huv & _). rewrite sumS.
+  rewrite (csum_ext _ (fun j => u * dpw theta j)) by (intros j Hj; cbn [plus]; apply (moment1u u v theta Huv j n Hj)).
+  rewrite csum_scal, csum_dpw. ring.
 Qed.
 Lemma S_moment2 : sumQ (map (fun i => Qnat i * (Qnat i - 1) * Sv i) (seq 0 n)) == N * (u * u) * b theta.
 Proof.
-  destruct uv_vals as (_ & Huv & _). apply (Qmult_inj_l _ _ (theta * theta)); [intro H; apply Hth; apply Qmult_integral in H; tauto|].
-  rewrite sumS.
-  setoid_replace (theta * theta * (N * csum (fun j => sumQ (map (fun i => Qnat i * (Qnat i - 1) * Tk u v j i) (seq 0 n))) c 0))
-    with (N * csum (fun j => theta * theta * sumQ (map (fun i => Qnat i * (Qnat i - 1) * Tk u v j i) (seq 0 n))) c 0) by (rewrite csum_scal; ring).
-  rewrite (csum_ext _ (fun j => (u * u) * (Qnat j * (Qnat j - 1) * pw theta j))).
-  - rewrite csum_scal. destruct (csum_pw theta c 0) as (_ & _ & E). rewrite E, pw_0, pdd_from_0. ring.
-  - intros j Hj. cbn [plus]. rewrite (moment2 u v theta Huv j n Hj). ring.
+  destruct uv_vals as (_ & Huv & _). rewrite sumS.
+  rewrite (csum_ext _ (fun j => u * u * ddpw theta j)) by (intros j Hj; cbn [plus]; apply (moment2u u v theta Huv j n Hj)).
+  rewrite csum_scal, csum_ddpw. ring.
 Qed.
 
 (* S_kappa = 0 beyond the largest degree *)
